@@ -384,6 +384,7 @@ theorem step_nodes_inv (s : State) (op : Op) (h : LInvS s) (y : Res State) (e : 
   | aappendself v => exact liftA_inv s v _ h y (ite_some e)
   | aappendref v i => exact liftA_inv s v _ h y (ite_some e)
   | aresizeref v n i => exact liftA_inv s v _ h y (ite_some e)
+  | aappendsub v i n => exact liftA_inv s v _ h y (ite_some e)
   | aassignself v =>
     have := ite_some e
     simp only [Option.some.injEq] at this
